@@ -68,7 +68,40 @@ var (
 	useEmbed = os.Getenv("VERIF_C13_EMBED") == "1"
 )
 
+// battery is a fixed history that touches every kind of build input once; the
+// first runs of every batch are batteries (one per clock mode), because a quick
+// batch affords only a dozen histories and must not depend on luck for the
+// basic cases.  Random histories follow.
+func battery(clock string, embed bool) *Scenario {
+	sc := &Scenario{Clock: clock}
+	sc.Pkgs = []PkgSpec{
+		{Name: "p0", Imports: []string{"p1", "p3"}, HasTag: true},
+		{Name: "p1", Imports: []string{"p2"}},
+		{Name: "p2", Imports: []string{"p3"}, HasC: true, TwoC: true, LinkLib: haveBz2},
+		{Name: "p3", HasC: true, Embed: embed},
+	}
+	b := Step{K: "build"}
+	sc.Steps = []Step{b,
+		{K: "edit-src-same", Pkg: 3}, b, // shared leaf: both importers and their importers must follow
+		{K: "edit-c", Pkg: 2, Arg: 1}, b, // second C file
+		{K: "edit-c", Pkg: 2, Arg: 0}, b,
+		{K: "edit-src", Pkg: 1}, {K: "crash", Pkg: 1, Target: "manifest"}, b,
+		{K: "edit-c", Pkg: 2, Arg: 1}, {K: "crash", Pkg: 2, Target: "manifest"}, b, // archive without manifest of a package with link arguments
+		{K: "tag"}, b,
+		{K: "edit-src-same", Pkg: 2}, {K: "crash", Pkg: 2, Target: "archive"}, b,
+		{K: "noop"},
+		{K: "abi", Arg: 1}, b,
+	}
+	if embed {
+		sc.Steps = append(sc.Steps, Step{K: "edit-embed", Pkg: 3}, b)
+	}
+	return sc
+}
+
 func (prop) Generate(rng *sim.Rng, tier string, runIndex int) driver.Scenario {
+	if runIndex < 4 {
+		return battery([]string{"normal", "coarse", "stall", "backwards"}[runIndex], useEmbed && runIndex == 0)
+	}
 	sc := &Scenario{}
 	n := rng.Range(3, 4)
 	if tier == "thorough" && rng.Intn(3) == 0 {
